@@ -126,6 +126,17 @@ def support(cls):
     return cls in COMPACT
 
 
+def near_integer_order_grid(cls, tier="quick"):
+    """parameter sets for which the order of the exponential integral behind the correlation is an
+    integer up to rounding (TPLStable: 1 + 2 hurst / alpha = 3.9999999999999996) or lies inside the
+    library's isclose window around an integer (Integral: 1 + nu / 2 = 2 - 5e-6)"""
+    if cls == "TPLStable":
+        return [{"hurst": 0.6, "alpha": 0.4, "len_low": 0.0}]
+    if cls == "Integral":
+        return [{"nu": 2.0 - 1e-5}]
+    return []
+
+
 def opt_grid(cls, dim, tier="quick"):
     """optional-argument grid incl. both (dimension dependent) bounds"""
     d = dim
